@@ -51,13 +51,98 @@ def apply_edits(ix, edits):
     return overlay
 
 
+def apply_unified_diff(ix, text):
+    """In-memory application of a stored `git diff` to the *current* sources: returns {relpath: new text} or None when a hunk's context
+    is not found (the repository changed there).  Line endings are normalised to LF on both sides."""
+    import re
+    files = []
+    cur = None
+    need_old = need_new = 0
+    for line in text.replace('\r\n', '\n').split('\n'):
+        if need_old > 0 or need_new > 0:
+            tag = line[:1] if line else ' '
+            if tag == '\\':
+                continue                # "\ No newline at end of file"
+            cur['hunks'][-1]['lines'].append((line if line else ' ').rstrip('\r'))
+            if tag in (' ', '-'):
+                need_old -= 1
+            if tag in (' ', '+'):
+                need_new -= 1
+            continue
+        if line.startswith('diff --git '):
+            cur = {'old': None, 'new': None, 'hunks': []}
+            files.append(cur)
+        elif cur is None:
+            continue
+        elif line.startswith('--- '):
+            cur['old'] = None if line[4:].strip() == '/dev/null' else line[4:].strip()[2:]
+        elif line.startswith('+++ '):
+            cur['new'] = None if line[4:].strip() == '/dev/null' else line[4:].strip()[2:]
+        elif line.startswith('@@'):
+            m = re.match(r'@@ -(\d+)(?:,(\d+))? \+(\d+)(?:,(\d+))? @@', line)
+            need_old = int(m.group(2)) if m.group(2) is not None else 1
+            need_new = int(m.group(4)) if m.group(4) is not None else 1
+            cur['hunks'].append({'start': int(m.group(1)), 'lines': []})
+    overlay = {}
+    for f in files:
+        if f['new'] is None:
+            return None                     # file deletions are not modelled
+        if f['old'] is None:
+            overlay[f['new']] = '\n'.join(l[1:] for h in f['hunks'] for l in h['lines'] if l.startswith('+')) + '\n'
+            continue
+        if not f['hunks']:
+            continue
+        try:
+            src_lines = ix.read(f['old']).replace('\r\n', '\n').split('\n')
+        except AnalysisError:
+            return None
+        out = list(src_lines)
+        shift = 0
+        for h in f['hunks']:
+            lines = h['lines']
+            old = [l[1:] for l in lines if l[:1] in (' ', '-')]
+            new = [l[1:] for l in lines if l[:1] in (' ', '+')]
+            at = h['start'] - 1 + shift
+            pos = None
+            for delta in sorted(range(-400, 401), key=abs):
+                k = at + delta
+                if 0 <= k <= len(out) - len(old) and [x.rstrip() for x in out[k:k + len(old)]] == [x.rstrip() for x in old]:
+                    pos = k
+                    break
+            if pos is None:
+                return None
+            out[pos:pos + len(old)] = new
+            shift += len(new) - len(old)
+        overlay[f['new']] = '\n'.join(out)
+    for p_, t_ in overlay.items():
+        if p_.endswith('.py'):
+            try:
+                compile(t_, p_, 'exec')
+            except SyntaxError:
+                return None
+    return overlay
+
+
+def stored_patches(prop):
+    """seeded changes (must be reported) and behaviour-preserving edits (must stay silent) kept under /verif for this property"""
+    import glob
+    import os
+    from .core import VERIF
+    out = []
+    for d in sorted(glob.glob(os.path.join(VERIF, 'seeded', f'{prop}-*', 'patch.diff'))):
+        out.append({'name': 'seeded/' + os.path.basename(os.path.dirname(d)), 'kind': 'break', 'patch': d})
+    for d in sorted(glob.glob(os.path.join(VERIF, 'keeps', f'{prop}-*', 'keep.diff'))):
+        out.append({'name': 'keeps/' + os.path.basename(os.path.dirname(d)), 'kind': 'keep', 'patch': d})
+    return out
+
+
 def run_calibration(prop, seed=0):
     try:
         mod = importlib.import_module(f'sa.calib_data.{prop}')
     except ModuleNotFoundError:
         return {'break_total': 0, 'break_fired': 0, 'keep_total': 0, 'keep_silent': 0, 'skipped': [], 'failures': [],
                 'note': 'no calibration overlays defined'}
-    overlays = list(mod.OVERLAYS)
+    overlays = list(mod.OVERLAYS) + stored_patches(prop)
     random.Random(seed).shuffle(overlays)
     base_ix = RepoIndex()
     base, err = _violations(prop, None)
@@ -65,12 +150,30 @@ def run_calibration(prop, seed=0):
         raise AnalysisError('baseline analysis failed during calibration: ' + err)
     res = {'break_total': 0, 'break_fired': 0, 'keep_total': 0, 'keep_silent': 0, 'skipped': [], 'failures': [],
            'fired': []}
+    prepared = []
     for ov in overlays:
-        overlay = apply_edits(base_ix, ov['edits'])
+        if 'patch' in ov:
+            with open(ov['patch']) as h_:
+                overlay = apply_unified_diff(base_ix, h_.read())
+        else:
+            overlay = apply_edits(base_ix, ov['edits'])
         if overlay is None:
             res['skipped'].append(ov['name'])
             continue
-        v, err = _violations(prop, overlay)
+        prepared.append((ov, overlay))
+    # the overlays are independent: analysed in parallel worker processes (results are the same as in sequence)
+    results = None
+    import os
+    if len(prepared) > 3 and not os.environ.get('SCMO_CALIB_SERIAL'):
+        try:
+            import multiprocessing as mp
+            with mp.get_context('fork').Pool(min(16, len(prepared), os.cpu_count() or 1)) as pool:
+                results = pool.starmap(_violations, [(prop, o_) for _ov, o_ in prepared])
+        except Exception:
+            results = None
+    if results is None:
+        results = [_violations(prop, o_) for _ov, o_ in prepared]
+    for (ov, overlay), (v, err) in zip(prepared, results):
         if ov['kind'] == 'break':
             res['break_total'] += 1
             fired = False
